@@ -1379,19 +1379,28 @@ impl Op {
                 let x = x.expand(xy_width, false);
                 let y = y.expand(xy_width, false);
 
+                // 3-valued AND (LRM 11.4.7): a definitely-false operand decides 0
+                // even when the other one is x/z, like `1 || x` decides 1 below.
                 let (is_one, is_x) = match (x.as_ref(), y.as_ref()) {
                     (Value::U64(x), Value::U64(y)) => {
-                        let is_one = (x.payload & !x.mask_xz != 0) && (y.payload & !y.mask_xz != 0);
-                        let is_x = x.mask_xz != 0 || y.mask_xz != 0;
+                        let x_true = x.payload & !x.mask_xz != 0;
+                        let y_true = y.payload & !y.mask_xz != 0;
+                        let x_false = !x_true && x.mask_xz == 0;
+                        let y_false = !y_true && y.mask_xz == 0;
+                        let is_one = x_true && y_true;
+                        let is_x = !is_one && !(x_false || y_false);
 
                         (is_one, is_x)
                     }
                     (Value::BigUint(x), Value::BigUint(y)) => {
                         let x_mask = mask_cache.get(x.width as usize).clone();
                         let y_mask = mask_cache.get(y.width as usize);
-                        let is_one = (x.payload() & (x.mask_xz() ^ x_mask) != b0())
-                            && (y.payload() & (y.mask_xz() ^ y_mask) != b0());
-                        let is_x = x.mask_xz() != &b0() || y.mask_xz() != &b0();
+                        let x_true = x.payload() & (x.mask_xz() ^ x_mask) != b0();
+                        let y_true = y.payload() & (y.mask_xz() ^ y_mask) != b0();
+                        let x_false = !x_true && x.mask_xz() == &b0();
+                        let y_false = !y_true && y.mask_xz() == &b0();
+                        let is_one = x_true && y_true;
+                        let is_x = !is_one && !(x_false || y_false);
 
                         (is_one, is_x)
                     }
